@@ -140,13 +140,19 @@ def run_impl(fam, lines, timeout=600):
     return res
 
 
+MODEL_CMD = ["bash", "-c", "ulimit -s 4000000 2>/dev/null || ulimit -s unlimited 2>/dev/null; exec " + MODEL]
+
+
 def run_model(lines, timeout=900):
-    out = run_lines([MODEL], lines, timeout)
+    if os.environ.get("VERIF_DEBUG"):
+        with open(os.path.join(ROOT, "replays", "last_model_input.txt"), "w") as f:
+            f.write("\n".join(lines) + "\n")
+    out = run_lines(MODEL_CMD, lines, timeout)
     if out is not None:
         return out
     res = []
     for l in lines:
-        o = run_lines([MODEL], [l], 120)
+        o = run_lines(MODEL_CMD, [l], 120)
         res.append(o[0] if o else '("MODEL-CRASH")')
     return res
 
@@ -160,13 +166,15 @@ def normalise(fam, lines):
 
 
 # ----------------------------------------------------------------------------- shrinking
-def shrink(fam, case_line, budget=40):
+def shrink(fam, case_line, orig_obs="", budget=25, seconds=45):
     """Greedy shrinking: repeatedly try the family's smaller candidates, keep the first that
-    still disagrees (and is still a well-formed case on both sides)."""
+    still disagrees in the same way (and is still a well-formed case on both sides)."""
     F = families.FAMILIES[fam]
     cur = case_line
     rounds = 0
-    while rounds < budget:
+    t_end = time.time() + seconds
+    keep_kind = F.get("shrink_ok", lambda orig, cand: True)
+    while rounds < budget and time.time() < t_end:
         rounds += 1
         try:
             cands = F["shrink"](sexp.parse(cur))
@@ -176,13 +184,16 @@ def shrink(fam, case_line, budget=40):
         if not cands:
             break
         cands = normalise(fam, cands)
-        exp = run_model(cands)
+        exp = run_model(cands, timeout=120)
+        keep = [i for i, e in enumerate(exp) if '("fuel")' not in e and "MODEL-CRASH" not in e]
+        cands = [cands[i] for i in keep]
+        exp = [exp[i] for i in keep]
         obs = run_impl(fam, cands, timeout=120)
         pick = None
         for c, e, o in zip(cands, exp, obs):
             if "BADCASE" in e or "BADCASE" in o or "HARNESS-PANIC" in o:
                 continue
-            if families.project(fam, e) != families.project(fam, o):
+            if families.project(fam, e) != families.project(fam, o) and keep_kind(orig_obs, o):
                 pick = c
                 break
         if pick is None:
@@ -257,7 +268,13 @@ def check_property(pid, tier, seed):
             lines += gen
             lines = normalise(fam, lines)
             exp = run_model(lines)
-            obs = run_impl(fam, lines, timeout=3000 if tier == "thorough" else 900)
+            # cases on which the model runs out of fuel are non-yielding jump cycles (known finding D7:
+            # the implementation recurses without bound and the process dies); they are not run
+            runnable = [i for i, e in enumerate(exp) if '("fuel")' not in e]
+            obs_run = run_impl(fam, [lines[i] for i in runnable], timeout=3000 if tier == "thorough" else 900)
+            obs = ['("SKIPPED-FUEL")'] * len(lines)
+            for i, o in zip(runnable, obs_run):
+                obs[i] = o
             hist = {}
             ok = True
             for i, (c, e, o) in enumerate(zip(lines, exp, obs)):
@@ -277,6 +294,9 @@ def check_property(pid, tier, seed):
                 if sum(1 for x in cov["samples"] if x["family"] == fam) < 2 and i >= ncorpus + nkf \
                         and nontrivial and i % 7 == 0:
                     cov["samples"].append({"family": fam, "case": c[:700], "observed": o[:400]})
+                if o == '("SKIPPED-FUEL")':
+                    hist["not run: non-yielding jump cycle (D7)"] = hist.get("not run: non-yielding jump cycle (D7)", 0) + 1
+                    continue
                 if "BADCASE" in e or "BADCASE" in o:
                     notes.append("BADCASE in %s case %d: %s / %s" % (fam, i, e[:200], o[:200]))
                     ok = False
@@ -306,7 +326,7 @@ def check_property(pid, tier, seed):
                     hist["known-finding class " + kmatch.get("id", "?")] = hist.get("known-finding class " + kmatch.get("id", "?"), 0) + 1
                     continue
                 ok = False
-                small = shrink(fam, c)
+                small = shrink(fam, c, o) if vcount + len(unresolved) < 2 else c
                 se = run_model(normalise(fam, [small]))[0]
                 so = run_impl(fam, normalise(fam, [small]), timeout=120)[0]
                 verdict, detail = F["oracle"](sexp.parse(small), sexp.parse(so), sexp.parse(se))
